@@ -128,6 +128,7 @@ package snapshot
 
 // sending side: message k carries sdataAt[k] with its length
 //@ ghostfield any.nsent Int
+//@ ghostfield any.stotal Int
 //@ ghostfield any.sdataAt map[Int]Bytes
 //@ ghostfield any.slenAt map[Int]Int
 //@ iface regattapb.Snapshot_StreamServer.Send
@@ -138,7 +139,8 @@ package snapshot
 //@   ensures err == nil ==> st.nsent == old(st.nsent) + 1 && st.sdataAt[old(st.nsent)] == old(bytesOf(c.Data)) && st.slenAt[old(st.nsent)] == c.Len
 //@   ensures err != nil ==> st.nsent == old(st.nsent)
 //@   ensures forall k Int :: k != old(st.nsent) || err != nil ==> st.sdataAt[k] == old(st.sdataAt[k]) && st.slenAt[k] == old(st.slenAt[k])
-//@   modifies st.nsent, st.sdataAt, st.slenAt
+//@   ensures st.stotal == old(st.stotal) + (err == nil ? blen(old(bytesOf(c.Data))) : 0)      // ghost: payload bytes shipped so far
+//@   modifies st.nsent, st.sdataAt, st.slenAt, st.stotal
 
 // Writer.Write: exactly one chunk carrying exactly p and its length
 //@ func (*Writer).Write
@@ -147,7 +149,19 @@ package snapshot
 //@   requires g != nil && g.Sender != nil
 //@   ensures [C18.chunk.send] err == nil ==> n == len(p) && g.Sender.nsent == old(g.Sender.nsent) + 1 && g.Sender.sdataAt[old(g.Sender.nsent)] == old(bytesOf(p)) && g.Sender.slenAt[old(g.Sender.nsent)] == len(p)
 //@   ensures [C18.chunk.fail] err != nil ==> n == 0 && g.Sender.nsent == old(g.Sender.nsent)
-//@   modifies g.Sender.nsent, g.Sender.sdataAt, g.Sender.slenAt
+//@   modifies g.Sender.nsent, g.Sender.sdataAt, g.Sender.slenAt, g.Sender.stotal
+
+// Writer.ReadFrom (what io.Copy uses when the source has no WriteTo of its own): every byte the
+// source hands out is shipped - also the bytes of a final Read that reports io.EOF together with
+// data - each Read as one chunk carrying exactly those bytes and their length
+//@ func (*Writer).ReadFrom
+//@   params g, r
+//@   results cnt, err
+//@   requires g != nil && g.Sender != nil && r != nil
+//@   ensures [C18.readfrom.all] err == nil ==> g.Sender.stotal - old(g.Sender.stotal) == r.rtotal - old(r.rtotal) && cnt == r.rtotal - old(r.rtotal)
+//@   modifies g.Sender.nsent, g.Sender.sdataAt, g.Sender.slenAt, g.Sender.stotal, r.nrec, r.rtotal
+//@   loop 0 invariant fresh(chunk) && len(chunk) > 0 && g.Sender == old(g.Sender) && g.Sender.stotal - old(g.Sender.stotal) == r.rtotal - old(r.rtotal) && count == r.rtotal - old(r.rtotal)
+//@   loop 0 step [C18.readfrom.chunk] g.Sender.nsent == prev(g.Sender.nsent) || (g.Sender.nsent == prev(g.Sender.nsent) + 1 && g.Sender.slenAt[prev(g.Sender.nsent)] == blen(g.Sender.sdataAt[prev(g.Sender.nsent)]))
 
 // Reader.Read: one received chunk is copied into p completely, or refused when p is too short
 //@ func (Reader).Read
